@@ -2,6 +2,7 @@
 #include <asl/Date.h>
 #include <stdio.h>
 #include <stdlib.h>
+#include <math.h>
 #include <unistd.h>
 #include <string>
 using namespace asl;
@@ -44,6 +45,9 @@ int main(int argc, char** argv)
 		  const char* stamps[] = { "2020-02-29T12:34:56", "1969-12-31T23:59:59", "1970-01-01T00:00:00", "2000-01-01T00:00:00", "1999-12-31T23:59:59", "2038-01-19T03:14:08" };
 		  for (const char* st : stamps) { Date base(String(st) + "Z"); for (auto& z : zs) { Date t(String(st) + z.zone); if (t.time() != base.time() - z.offset) { printf("REPRODUCED Date(\"%s%s\") is %.0f s from the same reading in UTC, the offset says %d\n", st, z.zone, base.time() - t.time(), z.offset); return 1; } } }
 		  Date e("2020-02-29T12:34:56Z"); DateData u = e.splitUTC(); if (u.year != 2020 || u.month != 2 || u.day != 29 || u.hours != 12 || u.minutes != 34 || u.seconds != 56) { printf("REPRODUCED fields of a parsed ISO date\n"); return 1; } }
+		// FULL format (milliseconds) round trip, also before 1970
+		for (double base : { -62135596800.0 + 86400, -1e9, -86400.0, -1.0, 0.0, 1.0, 1e9, 253402300799.0 - 86400 }) for (int ms = 0; ms < 1000; ms += 37) { double t = base + ms / 1000.0; Date d(t); String txt = d.toString(Date::FULL, true);
+			Date back(txt); if (!(back.time() == back.time()) || fabs(back.time() - t) > 0.0011) { printf("REPRODUCED Date(%.3f).toString(FULL) = \"%s\" parses back as %.3f\n", t, *txt, back.time()); return 1; } }
 		printf("OK\n"); return 0;
 	}
 	return 2;
